@@ -20,7 +20,8 @@ EXPLANATION = (
     "version.parse_version and, when requested, the uniqueness test; (R4) parse_version_info of both engines accepts only "
     "a full-length match."
 )
-LEVEL_NOTE = "The comparator itself (version.parse_version ordering) is C16's subject and assumed here. Values computed by incr are irrelevant to C01 because of the gate."
+LEVEL_NOTE = ("The comparator's order laws (C16/R1-R4) and the choice of the start version (C09/R1-R2) are imported as prerequisite rules R5/R6; agreement of the "
+              "comparator with a PEP 440 reference on all strings is not decided. Values computed by incr are irrelevant to C01 because of the gate.")
 
 GATE = "cli._is_valid_version"
 ROOTS = ("cli.test", "cli.update")
